@@ -185,7 +185,7 @@ func c13Bam(c *c13Case) interface{} {
 		return map[string]interface{}{"bad_case": err.Error()}
 	}
 	res := map[string]interface{}{"bases": f.bases, "sizes": f.sizes, "fsize": len(f.raw), "lens": f.lens, "stream": len(stream), "names": names}
-	br, err := bam.NewReader(bytes.NewReader(f.raw), c.Rd)
+	br, err := bam.NewReader(sourceFor(f.raw), c.Rd)
 	if err != nil {
 		res["new_err"] = 2
 		res["new_msg"] = err.Error()
